@@ -225,8 +225,14 @@ def mirror_pure(p):
 # ------------------------------------------------------------------------------------------------
 # Coq emission
 # ------------------------------------------------------------------------------------------------
+def _n(k):
+    """numbers are references to the shared constants n0, n1 = S n0, ... (a literal 3000 would be a
+    3000-deep unary term at every occurrence)"""
+    return "n%d" % k
+
+
 def _l(xs):
-    return "[" + "; ".join(str(x) for x in xs) + "]"
+    return "[" + "; ".join(_n(x) if isinstance(x, int) else str(x) for x in xs) + "]"
 
 
 def coq_block(block, ind=2):
@@ -241,21 +247,21 @@ def coq_block(block, ind=2):
 def coq_stmt(s, ind=2):
     k = s[0]
     if k == "alias":
-        return "SAlias %d %s" % (s[1], _l(s[2]))
+        return "SAlias %s %s" % (_n(s[1]), _l(s[2]))
     if k == "load":
-        return "SLoad %d %d %s" % (s[1], s[2], _l(s[3]))
+        return "SLoad %s %s %s" % (_n(s[1]), _n(s[2]), _l(s[3]))
     if k == "fresh":
-        return "SFresh %d %d %s" % (s[1], s[2], _l(s[3]))
+        return "SFresh %s %s %s" % (_n(s[1]), _n(s[2]), _l(s[3]))
     if k == "mut":
-        return "SMutate %d" % s[1]
+        return "SMutate %s" % _n(s[1])
     if k == "store":
-        return "SStore %d %d %d" % (s[1], s[2], s[3])
+        return "SStore %s %s %s" % (_n(s[1]), _n(s[2]), _n(s[3]))
     if k == "if":
         return "SIf (%s) (%s)" % (coq_block(s[1], ind + 1), coq_block(s[2], ind + 1))
     if k == "loop":
         return "SLoop (%s)" % coq_block(s[1], ind + 1)
     if k == "call":
-        return "SCall %d %d %d %d %d %s %s" % (s[1], s[2], s[3], s[4], s[5], _l(s[6]), _l(s[7]))
+        return "SCall %s %s %s %s %s %s %s" % (_n(s[1]), _n(s[2]), _n(s[3]), _n(s[4]), _n(s[5]), _l(s[6]), _l(s[7]))
     raise AssertionError(k)
 
 
@@ -267,12 +273,43 @@ def coq_ident(name):
 def coq_program(idx, p):
     nv = (max(p["entry_v"]) + 1) if p["entry_v"] else 0
     av = _l(_l(sorted(p["entry_v"].get(i, ()))) for i in range(nv))
-    nt = (max(p["entry_h"]) + 1) if p["entry_h"] else 0
-    ah = _l(_l("(%d, %d)" % e for e in sorted(p["entry_h"].get(i, ()))) for i in range(nt))
+    ah = p.get("entry_h_name") or coq_heap(p["entry_h"])
     return ("Definition %s : program := {|\n  pname := %d;\n  body := %s;\n  entry := {| av := %s; ah := %s |};\n"
             "  protected := %s;\n  rets := %s;\n  ret_fresh := %s |}.\n" % (
                 coq_ident(p["name"]), idx, coq_block(p["body"]), av, ah, _l(sorted(p["protected"])), _l(p["rets"]),
                 "true" if p["ret_fresh"] else "false"))
+
+
+def coq_heap(h):
+    nt = (max(h) + 1) if h else 0
+    return _l(_l("(%s, %s)" % (_n(e[0]), _n(e[1])) for e in sorted(h.get(i, ()))) for i in range(nt))
+
+
+def max_number(progs):
+    m = [3]
+
+    def walk(b):
+        for s in b:
+            if s[0] == "if":
+                walk(s[1]); walk(s[2])
+            elif s[0] == "loop":
+                walk(s[1])
+            else:
+                for x in s[1:-1]:
+                    if isinstance(x, int):
+                        m[0] = max(m[0], x)
+                    elif isinstance(x, list):
+                        for y in x:
+                            m[0] = max(m[0], y)
+    for p in progs:
+        walk(p["body"])
+        for x, ts in p["entry_v"].items():
+            m[0] = max(m[0], x, *ts)
+        for t, es in p["entry_h"].items():
+            for (f, u) in es:
+                m[0] = max(m[0], t, f, u)
+        m[0] = max([m[0]] + list(p["rets"]))
+    return m[0]
 
 
 
@@ -2128,6 +2165,17 @@ def generate(repo):
         lines.append("   %3d  %s%s" % (i, p["name"], "   [ret_fresh]" if p["ret_fresh"] else ""))
     lines.append("   in scope, NOT claimed here (run-time comparison only): %s *)" % ", ".join(runtime_only))
     lines.append("")
+    lines.append("Definition n0 : nat := O.")
+    for k in range(1, max_number(progs + controls) + 1):
+        lines.append("Definition n%d : nat := S n%d." % (k, k - 1))
+    lines.append("")
+    if err is None and progs:
+        lines.append("(* what caller-owned memory looks like at entry: tag 0 (protected) objects reference tag-0 objects under every\n"
+                     "   field, except the diagnostics fields, which lead to the diagnostics world (tag 2); tag 1 = memory the\n"
+                     "   function may write (result regions, `self` of constructors) *)")
+        lines.append("Definition caller_heap : list (list (field * tag)) := %s." % coq_heap(progs[0]["entry_h"]))
+        for p in progs + controls:
+            p["entry_h_name"] = "caller_heap"
     for i, p in enumerate(progs):
         lines.append(coq_program(i, p))
     lines.append("Definition all_progs : list program := [\n  %s\n]." % ";\n  ".join(coq_ident(p["name"]) for p in progs))
